@@ -5,6 +5,7 @@ import (
 	"bytes"
 	"compress/gzip"
 	"encoding/hex"
+	"encoding/json"
 	"errors"
 	"io"
 )
@@ -199,9 +200,31 @@ func (s tmSrc) MarshalText() ([]byte, error) {
 	return append([]byte(nil), s.data...), nil
 }
 
+// jmSrc is a struct with a MarshalJSON of its own (what a generated model is): the byte-stream and text producers
+// write structs as JSON, so what arrives must decode to plainStruct{A, len(A)}.
+type jmSrc struct {
+	A     string
+	fail  bool
+	calls *int
+}
+
+func (s jmSrc) MarshalJSON() ([]byte, error) {
+	*s.calls++
+	if s.fail {
+		return nil, errUserMethod
+	}
+	return json.Marshal(plainStruct{A: s.A, B: len(s.A)})
+}
+
+// chanStruct is of a documented kind (struct: written as JSON) that JSON cannot render.
+type chanStruct struct {
+	A string   `json:"a"`
+	C chan int `json:"c"`
+}
+
 // userFailKinds: the destination / source kinds whose own (un)marshaler can be made to fail (Case.UFail).
 var userFailDestKinds = []string{"binunm", "textunm"}
-var userFailSrcKinds = []string{"binm", "textm"}
+var userFailSrcKinds = []string{"binm", "textm", "jsonm"}
 
 type errSrc struct{ msg string }
 
@@ -394,8 +417,36 @@ func mkDest(codec, kind string, pre []byte, o Script, bufsz int) (d dest, ok boo
 // ---- source factory for the byte-oriented producers ----
 
 var bsSrcKinds = []string{"writerto", "reader", "readcloser", "dual", "binm", "error", "[]byte", "string", "named-bytes", "named-string",
-	"*string", "*[]byte", "*named-string", "*named-bytes", "struct", "*struct", "slice"}
-var textSrcKinds = []string{"textm", "error", "stringer", "string", "*string", "named-string", "*named-string", "struct", "*struct", "slice"}
+	"*string", "*[]byte", "*named-string", "*named-bytes", "struct", "*struct", "slice", "jsonm"}
+var textSrcKinds = []string{"textm", "error", "stringer", "string", "*string", "named-string", "*named-string", "struct", "*struct", "slice", "jsonm"}
+
+// sources the producers do not document (or cannot render): nil, typed-nil pointers, scalars, maps, channels,
+// functions, arrays, and struct / slice values that JSON refuses.
+var bsSrcOther = []string{"nil", "nil-*string", "nil-*[]byte", "nil-*struct", "nil-*iface", "int", "*int", "bool", "float", "map", "*map", "chan", "func",
+	"*iface-nil", "[4]byte", "struct-chan", "*struct-chan", "slice-chan"}
+var textSrcOther = []string{"nil", "nil-*string", "nil-*[]byte", "nil-*struct", "nil-*iface", "int", "*int", "bool", "float", "map", "*map", "chan", "func",
+	"*iface-nil", "[4]byte", "struct-chan", "*struct-chan", "slice-chan", "[]byte", "*[]byte"}
+
+func srcKindsOf(codec string) (documented, other []string) {
+	if codec == "text" {
+		return textSrcKinds, textSrcOther
+	}
+	return bsSrcKinds, bsSrcOther
+}
+
+// srcClass names the class of a source kind for signatures.
+func srcClass(codec, kind string) string {
+	documented, _ := srcKindsOf(codec)
+	switch {
+	case kind == "nil":
+		return "nil-source"
+	case len(kind) > 4 && kind[:4] == "nil-":
+		return "typed-nil-source"
+	case isIn(documented, kind):
+		return "documented-source"
+	}
+	return "unsupported-source"
+}
 
 type source struct {
 	v       interface{}
@@ -472,6 +523,47 @@ func mkSourceF(kind string, content []byte, o Script, ufail bool) (s source, ok 
 	case "slice":
 		x := []string{string(content), "x"}
 		s.v, s.jsonOf, s.byteSrc = x, x, false
+	case "jsonm":
+		s.ucalls = new(int)
+		s.v, s.jsonOf, s.byteSrc = jmSrc{string(content), ufail, s.ucalls}, plainStruct{A: string(content), B: len(content)}, false
+	// ---- kinds no producer documents: every one of them carries a value (the content, or a non-zero scalar) ----
+	case "nil":
+		s.v, s.byteSrc = nil, false
+	case "nil-*string":
+		s.v, s.byteSrc = (*string)(nil), false
+	case "nil-*[]byte":
+		s.v, s.byteSrc = (*[]byte)(nil), false
+	case "nil-*struct":
+		s.v, s.byteSrc = (*plainStruct)(nil), false
+	case "nil-*iface":
+		s.v, s.byteSrc = (*interface{})(nil), false
+	case "int":
+		s.v, s.byteSrc = 42+len(content), false
+	case "*int":
+		x := 42 + len(content)
+		s.v, s.byteSrc = &x, false
+	case "bool":
+		s.v, s.byteSrc = true, false
+	case "float":
+		s.v, s.byteSrc = 1.5+float64(len(content)), false
+	case "map":
+		s.v, s.byteSrc = map[string]string{"k": string(content)}, false
+	case "*map":
+		s.v, s.byteSrc = &map[string]string{"k": string(content)}, false
+	case "chan":
+		s.v, s.byteSrc = make(chan int), false
+	case "func":
+		s.v, s.byteSrc = func() {}, false
+	case "*iface-nil":
+		s.v, s.byteSrc = new(interface{}), false
+	case "[4]byte":
+		s.v, s.byteSrc = [4]byte{'a', 'b', 'c', 'd'}, false
+	case "struct-chan":
+		s.v, s.byteSrc = chanStruct{string(content), make(chan int)}, false
+	case "*struct-chan":
+		s.v, s.byteSrc = &chanStruct{string(content), make(chan int)}, false
+	case "slice-chan":
+		s.v, s.byteSrc = []chan int{make(chan int)}, false
 	default:
 		return s, false
 	}
